@@ -8,9 +8,9 @@ from adapters import poolsim
 from adapters.poolsim import f, value, decode
 
 JUDGE = {"r": 1, "t": 1, "l": 0}
-POOLS = "/repo/windpyutils/parallel/pools.py"
-MAPS = "/repo/windpyutils/parallel/maps.py"
-WORKERS = "/repo/windpyutils/parallel/workers.py"
+POOLS = tlc.REPO + "/windpyutils/parallel/pools.py"
+MAPS = tlc.REPO + "/windpyutils/parallel/maps.py"
+WORKERS = tlc.REPO + "/windpyutils/parallel/workers.py"
 
 
 class Harness:
@@ -117,7 +117,7 @@ def real_leg(ctx, quick, rnd):
     from adapters import realrun
 
     def child(scen, wfd):
-        sys.path.insert(0, "/repo")
+        sys.path.insert(0, tlc.REPO)
         import importlib
         import windpyutils.parallel.pools as pools
         import windpyutils.parallel.workers as workers
